@@ -433,9 +433,9 @@ def run(ctx):
     with concurrent.futures.ThreadPoolExecutor(max_workers=10) as pool:
         jobs["main"] = pool.submit(_tlc_retry, ctx, "MHKernel", cfg="MHKernel.%s.cfg" % tier, workers=8, timeout=3000)
         jobs["deep"] = pool.submit(_tlc_retry, ctx, "MHKernel", cfg="MHKernel.deep.%s.cfg" % tier, workers=8, timeout=3000)
-        jobs["m0"] = pool.submit(_tlc_retry, ctx, "MHKernel", cfg="MHKernel.rawprior_m0.cfg", workers=2)
+        jobs["m0"] = pool.submit(_tlc_retry, ctx, "MHKernel", cfg="MHKernel.rawprior_m0.cfg", workers=2, timeout=2400)
         for cfg, inv in DEVIATIONS:
-            jobs[cfg] = pool.submit(_tlc_retry, ctx, "MHKernel", cfg=cfg, workers=2, expect_violation=True)
+            jobs[cfg] = pool.submit(_tlc_retry, ctx, "MHKernel", cfg=cfg, workers=2, expect_violation=True, timeout=2400)
         if tier == "thorough":
             jobs["sim"] = pool.submit(_tlc_retry, ctx, "MHKernel", cfg="MHKernel.sim.thorough.cfg", workers=4, mode="simulate",
                                       simulate="num=500", depth=40, seed=1000 + ctx.seed, timeout=3000)
@@ -498,6 +498,9 @@ def run(ctx):
         for r in res.values():
             tlc.cleanup(r)
         shutil.rmtree(workdir, ignore_errors=True)
+        import glob
+        for d in glob.glob(os.path.join(tlc.WORK, "c02-%d-*" % os.getpid())):     # work directories of failed / retried TLC runs
+            tlc.cleanup(d)
     ctx.rule = ("behaviour = one terminal path of the bounded MHKernel instance (configuration x initial point x sequence of "
                 "Propose/Decide/Tune/SaveLoad) emitted by TLC with exact noise, ratio and predicted states; replayed per realisation "
                 "(quick: all; thorough: edge cover + seeded sample of %d, + simulated deep behaviours); distinct = behaviour x "
